@@ -1751,11 +1751,14 @@ func (p *Prog) linForm(fd *ast.FuncDecl, e ast.Expr, site ast.Node, depth int) (
 				// and the definition must not sit in a loop that the site is outside of or that reassigns sources
 				inLoop := false
 				for _, anc := range stackOf(fd, def) {
-					if _, ok := anc.(*ast.ForStmt); ok {
-						inLoop = true
-					}
-					if _, ok := anc.(*ast.RangeStmt); ok {
-						inLoop = true
+					switch anc.(type) {
+					case *ast.ForStmt, *ast.RangeStmt:
+						// a definition inside a loop is looked through only from a site in the same iteration:
+						// the site must lie in that loop's body too (the positional check above then covers
+						// everything between the two, and the loop's post statement runs after both)
+						if !containsNode(anc, site) {
+							inLoop = true
+						}
 					}
 				}
 				// a loop around the site (but not around the definition) must not assign the sources at all:
